@@ -148,7 +148,20 @@ FormCases == {[content |-> << SeqP(1, "1", IF nest THEN << SeqP(0, "1", << FormE
                attrs |-> <<>>, order |-> "before"] @@ (IF unq THEN [unqualified |-> TRUE] ELSE [dummyq |-> TRUE]) :
                  ty \in {B("string"), T("t", "OtherType"), T("o", "FarType")}, fo \in {"none", "qualified", "unqualified"}, nest \in BOOLEAN, unq \in BOOLEAN}
 
+\* Slice "annotated": xs:annotation where XSD allows it besides the head of the type: as first child of the sequence, of a
+\* nested sequence, of a choice, of an all group, of xs:extension (open finding D43: the type is dropped)
+Doc(p) == p @@ [doc |-> "note on the group"]
+AnnContents == { << Doc(SeqP(1, "1", << El("subjectMember", B("string"), 1, "1"), Tail1 >>)) >>,
+                 << SeqP(1, "1", << El("subjectMember", B("string"), 1, "1"), Doc(SeqP(0, "1", << El("innerMember", T("t", "OtherType"), 1, "1") >>)), Tail1 >>) >>,
+                 << SeqP(1, "1", << El("subjectMember", B("int"), 0, "unb"), Doc(ChoiceO(1, "1", << El("leftBranch", B("string"), 1, "1"), El("rightBranch", B("long"), 1, "1") >>)) >>) >>,
+                 << Doc(ChoiceO(1, "1", << El("leftBranch", B("string"), 1, "1"), El("rightBranch", T("o", "FarType"), 1, "1") >>)) >>,
+                 << Doc(AllO(1, << El("leftBranch", B("string"), 1, "1"), El("rightBranch", B("long"), 0, "1") >>)) >> }
+AnnotatedCases == {[content |-> ct, attrs |-> at, order |-> o] : ct \in AnnContents, at \in TopAttrs, o \in {"before", "after"}}
+                  \cup {[content |-> << SeqP(1, "1", << El("subjectMember", B("string"), 1, "1") >>) >>, attrs |-> at, order |-> o,
+                         base |-> T("t", "OtherType"), ext_doc |-> "note on the extension"] : at \in TopAttrs, o \in {"before", "after"}}
+
 Space == CASE Slice = "builtins" -> BuiltinCases
+           [] Slice = "annotated" -> AnnotatedCases
            [] Slice = "form" -> FormCases
            [] Slice = "homonym" -> HomonymCases
            [] Slice = "toplevel" -> TopLevelCases
@@ -167,6 +180,7 @@ Helpers == << [k |-> "complex", n |-> "OtherType", base |-> None,
               [k |-> "simple", n |-> "CodeType", base |-> B("string"), facets |-> << <<"maxLen", 8>> >>],
               [k |-> "element", n |-> "GlobalThing", inline |-> [content |-> << SeqP(1, "1", << El("thingValue", B("int"), 1, "1") >>) >>, attrs |-> <<>>]] >>
 Focus(x) == [k |-> "complex", n |-> "FocusType", base |-> IF "base" \in DOMAIN x THEN x.base ELSE None, content |-> x.content, attrs |-> x.attrs]
+            @@ (IF "ext_doc" \in DOMAIN x THEN [ext_doc |-> x.ext_doc] ELSE [k |-> "complex"])
 File1(x) == [name |-> "f1.xsd", kind |-> "xsd", tns |-> "Unear",
              xmlns |-> << <<"t", "Unear">>, <<"o", "Ufar">> >> \o (IF "dflt" \in DOMAIN x THEN << <<"", "Unear">> >> ELSE <<>>),
              items |-> << [k |-> "import", ns |-> "Ufar", loc |-> "f2.xsd"] >>
